@@ -242,6 +242,81 @@ def run(ck: Check) -> None:
         if len(ck.samples) < 6:
             ck.samples.append({"entry_point": ep, "case": kind, "exit_status": rc, "reports_success": success_line, "model": m})
 
+    # the same verdicts under other process conditions and other spellings of the file names
+    by_kind = {}
+    for i, (kind, tb, ub, t, u) in enumerate(pairs):
+        by_kind.setdefault(kind, (i, tb, ub, t, u))
+    def run_cond(ep, args, cond):
+        """cond: how standard output is wired — a pipe whose reader has gone away (buffered / unbuffered), /dev/full, closed at start-up"""
+        env = dict(os.environ, PYTHONPATH=REPO, PYTHONDONTWRITEBYTECODE="1", PYTHONIOENCODING="utf-8")
+        if cond.endswith("unbuffered"):
+            env["PYTHONUNBUFFERED"] = "1"
+        cmd = [sys.executable] + ([script] if ep == "script" else ["-m", "conda_content_trust" if ep == "modulePkg" else "conda_content_trust.cli"]) + args
+        if cond.startswith("pipe-gone"):
+            r_, w_ = os.pipe()
+            os.close(r_)
+            try:
+                p = subprocess.run(cmd, env=env, cwd=d, stdout=w_, stderr=subprocess.PIPE, timeout=120)
+            finally:
+                os.close(w_)
+        elif cond.startswith("dev-full"):
+            with open("/dev/full", "wb") as f:
+                p = subprocess.run(cmd, env=env, cwd=d, stdout=f, stderr=subprocess.PIPE, timeout=120)
+        else:   # closed at start-up: the interpreter has no standard output object
+            p = subprocess.run(["/bin/sh", "-c", 'exec "$@" >&-', "sh"] + cmd, env=env, cwd=d, stderr=subprocess.PIPE, timeout=120)
+        return p.returncode, p.stderr.decode("utf-8", "replace")
+    cjobs = []
+    for kind in ("root-unsigned", "deleg-unsigned", "root-skip", "type-mismatch", "unknown-role", "root-foreign"):
+        if kind not in by_kind:
+            continue
+        i, tb, ub, t, u = by_kind[kind]
+        pd = os.path.join(d, f"cond-{kind}")
+        os.makedirs(pd, exist_ok=True)
+        open(os.path.join(pd, "t.json"), "wb").write(tb)
+        open(os.path.join(pd, "u.json"), "wb").write(ub)
+        for ep in ENTRY_POINTS:
+            for cond in ("pipe-gone-unbuffered", "pipe-gone", "dev-full-unbuffered", "dev-full", "closed"):
+                cjobs.append((kind, ep, cond, ["verify-metadata", os.path.join(pd, "t.json"), os.path.join(pd, "u.json")]))
+    with ThreadPoolExecutor(max_workers=16) as ex:
+        couts = list(ex.map(lambda j: run_cond(j[1], j[3], j[2]), cjobs))
+    for (kind, ep, cond, args), (rc, err) in zip(cjobs, couts):
+        ck.evaluations += 1
+        ck.oracle_checks += 1
+        ck.count(f"verify-stdout-{cond}:exit{rc}")
+        if rc == 0:
+            ck.violation("verify-metadata: a rejected pair exits with status zero when standard output cannot take the report",
+                         {"entry_point": ep, "case": kind, "stdout": cond, "stderr_tail": err[-300:]}, f"cli-verify-stdout:{cond}:{kind}")
+    # file names that reach a file through a symbolic link and '..' (the kernel's reading: the parent of the link's *target*), next to a decoy of the same
+    # name with the opposite verdict where a textual reading would look; and harmless respellings ('./', '//', 'x/../' through a real directory)
+    if "root-ok" in by_kind and "root-unsigned" in by_kind:
+        good, bad = by_kind["root-ok"], by_kind["root-unsigned"]
+        pjobs = []
+        for label, named, decoy, want in (("named-rejected-decoy-accepted", bad, good, False), ("named-accepted-decoy-rejected", good, bad, True)):
+            base = os.path.join(d, "paths-" + label)
+            real = os.path.join(base, "elsewhere", "inner")
+            os.makedirs(real, exist_ok=True)
+            os.makedirs(os.path.join(base, "here", "sub"), exist_ok=True)
+            lnk = os.path.join(base, "here", "link")
+            if not os.path.islink(lnk):
+                os.symlink(real, lnk)
+            for dirn, (i, tb, ub, t, u) in ((os.path.join(base, "elsewhere"), named), (os.path.join(base, "here"), decoy)):
+                open(os.path.join(dirn, "t.json"), "wb").write(tb)
+                open(os.path.join(dirn, "u.json"), "wb").write(ub)
+            for ep in ENTRY_POINTS:
+                pjobs.append((label, ep, "symlink-dotdot", ["verify-metadata", os.path.join(lnk, "..", "t.json"), os.path.join(lnk, "..", "u.json")], os.path.join(base, "here"), want))
+                pjobs.append((label, ep, "symlink-dotdot-relative", ["verify-metadata", "link/../t.json", "link/../u.json"], os.path.join(base, "here"), want))
+                pjobs.append((label, ep, "respelled", ["verify-metadata", ".//sub/..//t.json", "sub/./../u.json"], os.path.join(base, "elsewhere" if False else "here"), not want))
+        with ThreadPoolExecutor(max_workers=16) as ex:
+            pouts = list(ex.map(lambda j: run_ep(j[1], script, j[3], j[4]), pjobs))
+        for (label, ep, spelling, args, cwd_, want), (rc, out, err) in zip(pjobs, pouts):
+            ck.evaluations += 1
+            ck.oracle_checks += 1
+            ck.count(f"verify-path-{spelling}:exit{rc}")
+            if (rc == 0) != want:
+                ck.violation("verify-metadata: the verdict reported is not the library's verdict on the files named (names through a symbolic link and '..' / respelled names)",
+                             {"entry_point": ep, "case": label, "spelling": spelling, "args": args[1:], "exit_status": rc, "library_accepts_named_file": want, "stderr_tail": err[-200:]},
+                             f"cli-verify-path:{spelling}:{label}")
+
     # signing subcommands exit zero only if they actually signed
     k = gen.key(3)
     good_doc = {"packages": {"a-1.0-0.tar.bz2": {"name": "a", "version": "1.0"}}, "packages.conda": {"b.conda": {"name": "b"}}}
